@@ -44,6 +44,7 @@ GEN_SPEC = {"items": [
 ]}
 PKGS = {"pe": ("./lib/executors", "^TestVerifDriver$"), "sqlx": ("./lib/store/sqlx", "^TestVerifDriverC16$"),
         "stat": ("./lib/stat", "^TestVerifDriverC16$")}
+HOLD_N = 30
 SQLX_N = 6
 STAT_N = 24
 DROP_BASE = 900
@@ -252,29 +253,35 @@ def _sqlx_case(rng, directed=None):
 
 
 def _stat_case(rng):
+    """flush periods of every kind: only drops, only timed tasks, mixed, empty; closed by a tick or a Flush;
+    plus gated concurrent adders and Executes held while tasks arrive"""
     ops = []
 
-    def simple():
-        x = rng.random()
-        if x < 0.55:
-            return {"op": "add", "n": rng.randint(1, 6)}
-        return {"op": "drop", "n": rng.randint(1, 3)}
+    def simple(kind):
+        if kind == "drop" or (kind == "mixed" and rng.random() < 0.45):
+            return {"op": "drop", "n": rng.randint(1, 3)}
+        return {"op": "add", "n": rng.randint(1, 6)}
 
-    for _ in range(rng.randint(2, 9)):
+    for _ in range(rng.randint(2, 7)):
+        kind = rng.choice(["drop", "drop", "task", "mixed", "mixed", "empty"])
         x = rng.random()
-        if x < 0.5:
-            ops.append(simple())
+        if kind == "empty":
+            pass
         elif x < 0.7:
-            ops.append({"op": "tick"})
-        elif x < 0.8:
-            ops.append({"op": "flush"})
-        elif x < 0.9:
-            ops.append({"op": "overlap", "via": rng.choice(["tick", "flush"]), "n": rng.randint(1, 6)})
+            for _ in range(rng.randint(1, 3)):
+                ops.append(simple(kind))
         else:
-            threads = [[simple() for _ in range(rng.randint(1, 3))] for _ in range(rng.randint(1, 3))]
-            if rng.random() < 0.5:
+            threads = [[simple(kind) for _ in range(rng.randint(1, 3))] for _ in range(rng.randint(1, 3))]
+            if rng.random() < 0.4:
                 threads.append([{"op": "tick"} for _ in range(rng.randint(1, 2))])
             ops.append({"op": "par", "threads": threads})
+        y = rng.random()
+        if y < 0.45:
+            ops.append({"op": "tick"})
+        elif y < 0.8:
+            ops.append({"op": "flush"})
+        else:
+            ops.append({"op": "overlap", "via": rng.choice(["tick", "flush"]), "n": rng.randint(1, 6)})
     ops.append({"op": "flush"})
     return {"target": "stat", "chunk": False, "max": 10 ** 9, "ops": ops}
 
@@ -287,7 +294,7 @@ def _users(rng, tier):
 
 
 def generate(rng, tier, n):
-    cases = _directed(rng) + _users(rng, tier)
+    cases = _directed(rng) + _users(rng, tier) + [_hold_case(rng) for _ in range(HOLD_N * (4 if tier == "thorough" else 1))]
     if tier == "thorough":
         cases += _exhaustive()
     while len(cases) < n:
@@ -333,6 +340,8 @@ def _walk(ops):
             for x in _walk(th):
                 yield x
         for x in _walk(o.get("pre", [])):
+            yield x
+        for x in _walk(o.get("during", [])):
             yield x
 
 
@@ -423,11 +432,23 @@ def encode(case, obs):
     if tgt == "stat":
         return _encode_stat(case, obs)
     seq = _is_seq(case)
+    # scripts whose only concurrency are held execute callbacks have a fixed add order: the model replays them
+    # (mode 2: batches in the order they were taken out = order of the callbacks' entry, and tick deliveries)
+    held = (not seq) and all(o["op"] in ("add", "tick", "advance", "flush", "wait", "racetick", "holdexec") for o in case["ops"])
+    mode = 0 if seq else (2 if held else 1)
+    if held:
+        obs = dict(obs, batches=sorted(obs["batches"], key=lambda b: b["start"]))
     ops = []
-    if seq:
+    if seq or held:
         for o in case["ops"]:
             k = o["op"]
-            if k == "add":
+            if k == "holdexec":
+                ops.append({"tick": "STick", "flush": "SFlush", "wait": "SWait"}[o["via"]])
+                for d in o["during"]:
+                    ops.append("SAdd %s" % cnat(d["id"]))
+                if o.get("waiter"):
+                    ops.append("SWait")
+            elif k == "add":
                 ops.append("SAdd %s" % cnat(o["id"]))
             elif k == "racetick":
                 ops.append("SRaceTick %s" % cnat(o["id"]))
@@ -447,7 +468,7 @@ def encode(case, obs):
     return "mkcase %s %s %s %s %s %s %s %s %s %s %s %s %s %s" % (
         cbool(case["chunk"]), cZ(case["max"]), clist(sizes), cbool(seq), clist(ops), cnat(len(case["ops"])),
         clist(adds), clist(calls), clist(ticks), clist(batches), clist(perop), cbool(bool(obs["hung"])), cnat(obs["pending"]),
-        TAIL % cnat(0 if seq else 1))
+        TAIL % cnat(mode))
 
 
 def nontrivial(case, obs):
